@@ -146,6 +146,10 @@ type Explorer struct {
 	OutGuard  bool // treat bytes on fd 1/2 as violation (C17)
 	NoState   bool // skip CheckState (when another job already does it)
 	Quiet     bool // no samples
+	// Beyond: keep exploring behind a transition whose oracle reported a violation of a
+	// property this run does not decide (C17 only needs the guards, not the reference: a
+	// corrupted structure often panics or loops a few operations later).
+	Beyond bool
 	// After runs once the fixpoint is reached (deferred multi-root work); a violation
 	// it returns is attributed to the path it names.
 	After func(e *Explorer) *Found
@@ -272,7 +276,7 @@ func trimStack(b []byte) string {
 func (e *Explorer) replay(path []Op) Inst {
 	in := e.Sys.New()
 	for i, o := range path {
-		if v := safeStep(in, o, nil); v != nil {
+		if v := safeStep(in, o, nil); v != nil && !(e.Beyond && v.Class != "panic") {
 			panic(fmt.Sprintf("tool error: divergence while replaying verified prefix at step %d (%s) of %v: %s", i, o, path, v.Msg))
 		}
 	}
@@ -401,10 +405,17 @@ func (e *Explorer) Run() *Found {
 				return e.found(v, path, &o)
 			}
 			if v != nil {
-				// a violation of a property this run does not decide: do not explore
+				// a violation of a property this run does not decide: normally do not explore
 				// beyond a transition whose oracle failed (the reference is unreliable there)
 				e.St.Nested["transitions_with_foreign_violation"]++
-				continue
+				if !e.Beyond || v.Class == "panic" {
+					continue
+				}
+				kv := safeCheck(func() *Viol { k = in.Key(); return nil }, props, "fingerprint")
+				if kv != nil {
+					continue
+				}
+				h = hash16(k)
 			}
 			if k == kb {
 				e.St.Noop++
